@@ -513,6 +513,59 @@ fn run(ctx: &mut Ctx) {
             });
         }
     }
+    // the header crate's named getters are casts of the same kind
+    ctx.bound("header_named_getters", "headers [one header tag of kind K (1..=10), flags in {required, optional}, size 8..=72][end tag] x all 10 named getters of Multiboot2Header: the getter of kind K panics or returns the tag's address with a view of exactly its padded size; every other getter returns nothing or panics");
+    for kind in 1..=10u16 {
+        for flags in [0u16, 1] {
+            for size in 8..=72usize {
+                let base = hd::sample(kind, flags as u32, 2);
+                let mut img = base.clone();
+                img.resize(round8(size).max(8), 0);
+                for i in base.len().min(img.len())..img.len() {
+                    img[i] = marker(i, 41);
+                }
+                img.truncate(round8(size));
+                wr16(&mut img, 2, flags);
+                wr32(&mut img, 4, size as u32);
+                let h = hd::header(0, &[img, hd::end_tag()], 0xF7);
+                let describe = || J::obj().set("seam", "header named getters").set("type", hd::kind_name(kind)).set("flags", flags).set("tag_size", size).set("header", J::hex(&h));
+                ctx.leaf(describe, |ctx| {
+                    ctx.state_direct();
+                    ctx.nontrivial();
+                    rarena.fill(arena::FILL_B);
+                    let p = rarena.place_right(&h);
+                    let Out::Val(Ok(hdr)) = ctx.call("load", || unsafe { multiboot2_header::Multiboot2Header::load(p as *const multiboot2_header::Multiboot2BasicHeader) }) else {
+                        ctx.violation("c15/header-load", || "load failed on a header with valid words".into());
+                        return;
+                    };
+                    for g in 1..=10u16 {
+                        let recs = {
+                            let mut bat = Bat::new(ctx, p);
+                            bat.debug = false;
+                            mbvlib::hbattery::getter_level(&mut bat, g, &hdr, p);
+                            bat.recs
+                        };
+                        let get = recs.iter().find(|r| r.name == "getter").map(|r| r.val.clone());
+                        let sov = recs.iter().find(|r| r.name == "size_of_val").map(|r| r.val.clone());
+                        let ok = if g == kind {
+                            match (&get, &sov) {
+                                (Some(Val::Panic), _) => true,
+                                (Some(Val::U(16)), Some(Val::U(s))) => *s as usize == round8(size),
+                                (Some(Val::U(16)), Some(Val::Panic)) => true,
+                                _ => false,
+                            }
+                        } else {
+                            matches!(get, Some(Val::E(0)) | Some(Val::Panic))
+                        };
+                        if !ok {
+                            ctx.violation(&format!("c15/view-size/header-getter/{}", hd::kind_name(g)), || format!("header with one {} tag (flags {}) of size {}: the {} getter gives offset {:?}, size_of_val {:?}; must be {}", hd::kind_name(kind), flags, size, hd::kind_name(g), get, sov, if g == kind { format!("a panic or offset 16 and {}", round8(size)) } else { "nothing".into() }));
+                        }
+                    }
+                    ctx.class("header-getters:walked");
+                });
+            }
+        }
+    }
 }
 
 fn main() {
